@@ -328,7 +328,7 @@ pub fn run_batch(prop: &str, tier: Tier, seed: u64, total: u64, workers: u64, pe
             // the rest of the range after the crashing world still has to run
             if let Some(n) = last_started {
                 if n + 1 < to {
-                    let more = run_range(prop, tier, seed, n + 1, to, per_world);
+                    let more = run_range(prop, tier, seed, n + 1, to, per_world, 2);
                     merge(&mut batch, more);
                 }
             }
@@ -337,8 +337,9 @@ pub fn run_batch(prop: &str, tier: Tier, seed: u64, total: u64, workers: u64, pe
     batch
 }
 
-fn run_range(prop: &str, tier: Tier, seed: u64, from: u64, to: u64, per_world: bool) -> Batch {
-    // single worker over [from, to), recursing past crashes
+fn run_range(prop: &str, tier: Tier, seed: u64, from: u64, to: u64, per_world: bool, budget: u32) -> Batch {
+    // single worker over [from, to), recursing past crashes (a bounded number of times: once a
+    // range has produced a few dead workers the verdict is settled and the rest adds only time)
     let mut batch = Batch::default();
     let mut k = spawn_worker(prop, tier, seed, from, to, per_world);
     let so = k.child.stdout.take().unwrap();
@@ -374,8 +375,8 @@ fn run_range(prop: &str, tier: Tier, seed: u64, from: u64, to: u64, per_world: b
     if !finished {
         let n = last_started.unwrap_or(from);
         batch.crashed.push((n, format!("worker ended with {status}")));
-        if n + 1 < to {
-            let more = run_range(prop, tier, seed, n + 1, to, per_world);
+        if n + 1 < to && budget > 0 {
+            let more = run_range(prop, tier, seed, n + 1, to, per_world, budget - 1);
             merge(&mut batch, more);
         }
     }
